@@ -171,7 +171,12 @@ func (r *c11Round) predicates(sp *c11Spec, prevKey kyber.Point) {
 			}
 		}
 		if !same {
-			r.violation("agreement", fmt.Sprintf("honest nodes %s and %s finished with different commitments / QUAL (%s vs %s)", done[0].name, n.name, qualOf(ref), qualOf(n.result)), n)
+			key := "agreement"
+			phaseOf := func(x *dkgNode) string { return strings.SplitN(x.calls[len(x.calls)-1], ":", 2)[0] }
+			if phaseOf(done[0]) != phaseOf(n) {
+				key = "agreement:finished-in-different-phases"
+			}
+			r.violation(key, fmt.Sprintf("honest nodes %s and %s finished (in %s / %s) with different commitments / QUAL (%s vs %s)", done[0].name, n.name, phaseOf(done[0]), phaseOf(n), qualOf(ref), qualOf(n.result)), n)
 			return
 		}
 	}
@@ -296,7 +301,7 @@ func c11Compare(c *kc.Ctx, rounds []*c11Round) {
 				continue
 			}
 			items = append(items, item{r, n})
-			lines = append(lines, n.lineFix(true), n.lineFix(false))
+			lines = append(lines, n.lineFix(true, true), n.lineFix(false, false), n.lineFix(true, false), n.lineFix(false, true))
 		}
 	}
 	outs := c.Model(lines)
@@ -341,26 +346,36 @@ func c11Compare(c *kc.Ctx, rounds []*c11Round) {
 	}
 	for i, it := range items {
 		n := it.n
-		fixedOut, codedOut := outs[2*i], outs[2*i+1]
+		fixedOut, codedOut := outs[4*i], outs[4*i+1]
 		if i%(len(items)/6+1) == 0 {
-			c.Sample(map[string]string{"line": trunc200(lines[2*i], 600), "impl": trunc200(strings.Join(n.impl, " "), 400), "model": trunc200(fixedOut, 400)})
+			c.Sample(map[string]string{"line": trunc200(lines[4*i], 600), "impl": trunc200(strings.Join(n.impl, " "), 400), "model": trunc200(fixedOut, 400)})
 		}
 		at := cmp(it, fixedOut, true)
 		if at < 0 {
 			continue
 		}
-		if cmp(it, codedOut, false) < 0 && !n.inNew && n.inOld && strings.HasPrefix(n.calls[at], "PR:") {
-			// the implementation follows the as-coded model: a leaving dealer is refused by the phase check of
-			// ProcessResponses. Whether that breaks the property is decided by the predicates on the honest
-			// outputs (key honest-leaving-dealer-disqualified); the departure itself is accounted for.
-			c.CountKind("as-coded-path:leaving-dealer-refused-in-ProcessResponses")
+		// The implementation departs from the fully repaired model. It is accounted for if it follows one
+		// of the as-coded variants AND the departure is one of the two reported defects:
+		//  * a leaving dealer refused by the phase check of ProcessResponses (its effect on the property is
+		//    judged by the predicates: key honest-leaving-dealer-disqualified);
+		//  * the "finish in the response phase?" test reading rows of evicted dealers (effect judged by the
+		//    agreement predicate: key agreement).
+		matched := ""
+		for k, nm := range []string{"as-coded", "leaving-fixed-only", "phase-fixed-only"} {
+			if cmp(it, outs[4*i+1+k], false) < 0 {
+				matched = nm
+				break
+			}
+		}
+		if matched != "" && strings.HasPrefix(n.calls[at], "PR:") {
+			c.CountKind("as-coded-path:" + matched)
 			continue
 		}
-		c.Disagree(trunc200(lines[2*i], 2000), strings.Join(n.impl, " "), fixedOut, fmt.Sprintf("first difference at call %d; as-coded model: %s", at, trunc200(codedOut, 800)))
+		c.Disagree(trunc200(lines[4*i], 2000), strings.Join(n.impl, " "), fixedOut, fmt.Sprintf("first difference at call %d; as-coded model: %s", at, trunc200(codedOut, 800)))
 		c.DisChecked(1)
 		if len(it.r.vkeys) == 0 {
 			c.Unshown("correspondence:dkg", fmt.Sprintf("model and implementation differ for %s at call %d (%s)", n.name, at, it.r.desc),
-				map[string]any{"line": lines[2*i], "impl": n.impl, "model": fixedOut, "model_as_coded": codedOut})
+				map[string]any{"line": lines[4*i], "impl": n.impl, "model": fixedOut, "model_as_coded": codedOut})
 		}
 	}
 }
@@ -560,6 +575,32 @@ func runC11(c *kc.Ctx) {
 		}
 	}
 	c.Extra("scenarios_D_false_complaint_against_leaving_dealer", scen-a)
+	a = scen
+	// E. two colluding faulty parties (n - t >= 2), non-contiguous indices: one dealer is evicted through a
+	// deal for an unknown holder placed in the middle of its deal list, the other sends a justification
+	// bundle nobody asked for
+	for _, mock := range []bool{true, false} {
+		for n := 5; n <= 6; n++ {
+			for _, t := range thresholds(n) {
+				if n-t < 2 {
+					continue
+				}
+				cnt := c.N(8, 60)
+				if !mock {
+					cnt = c.N(2, 12)
+				}
+				for k := 0; k < cnt; k++ {
+					p1 := rng.Intn(n)
+					p2 := (p1 + 1 + rng.Intn(n-1)) % n
+					jf := 6 + rng.Intn(2)
+					sp := &c11Spec{mock: mock, n: n, t: t, fast: false, skipIdx: true, rawLists: false,
+						faults: map[int]c11Fault{p1: {11, 0, 0}, p2: {0, 0, jf}}}
+					play(sp, fmt.Sprint("E", mock, n, t, k))
+				}
+			}
+		}
+	}
+	c.Extra("scenarios_E_asymmetric_eviction_plus_unsolicited_justification", scen-a)
 	flush()
 	_ = sort.Ints
 }
